@@ -508,6 +508,35 @@ pub fn sweep_input(kind: u64, k: u64, t: u64, open_fid: u8) -> Option<Vec<u8>> {
                 None
             }
         }
+        3 => {
+            // every header x pseudo-random bodies of exactly the announced length (+0/+1/+5 trailing bytes);
+            // t = body variant. The first bytes are biased to field values that steer the parser.
+            let h = k as u32;
+            if h > 0xFFFF {
+                return None;
+            }
+            let gl = (h & 0x0FFF) as usize;
+            let extra = [0usize, 1, 5][(t % 3) as usize];
+            let mut x = (h as u64) << 20 ^ t.wrapping_mul(0x9E37_79B9_7F4A_7C15);
+            let mut v = Vec::with_capacity(gl + 2 + extra);
+            v.extend_from_slice(&(h as u16).to_be_bytes());
+            let head = gl.min(48);
+            while v.len() < 2 + head {
+                let w = crate::rng::splitmix64(&mut x);
+                // bias: small values, ext-id-like pairs, open frag id
+                let b = match w & 7 {
+                    0 => 0u8,
+                    1 => open_fid,
+                    2 => (w >> 8) as u8 & 0x07,
+                    3 => 0xFF,
+                    _ => (w >> 16) as u8,
+                };
+                v.push(b);
+            }
+            let fill = (crate::rng::splitmix64(&mut x) >> 24) as u8;
+            v.resize(2 + gl + extra, fill);
+            Some(v)
+        }
         _ => {
             const NTR: u64 = 32;
             let h = (k / NTR) as u32;
@@ -1624,6 +1653,8 @@ pub mod gen {
         }
         // enumerative part: the first indices are sweeps
         let (n0, n1, n2) = if tier == Tier::Quick { (34u64, 0u64, 2048u64) } else { (34, 4096, 32768) };
+        // kind 3: 65536 headers in 64 chunks of 1024, times body variants (quick 6, thorough 96)
+        let n3 = if tier == Tier::Quick { 64 * 6 } else { 64 * 96 };
         if idx < n0 {
             // all strings of length 0..=2 in chunks of 2048, in this run's state class
             ops.push(Op::new("sweep").u("kind", 0).u("a", idx * 2048).u("n", 2048).u("t", 0));
@@ -1636,6 +1667,9 @@ pub mod gen {
             let t = j / chunks_per_tail;
             let c = j % chunks_per_tail;
             ops.push(Op::new("sweep").u("kind", 2).u("a", c * 8192).u("n", 8192).u("t", t));
+        } else if idx < n0 + n1 + n2 + n3 {
+            let j = idx - n0 - n1 - n2;
+            ops.push(Op::new("sweep").u("kind", 3).u("a", (j % 64) * 1024).u("n", 1024).u("t", j / 64));
         } else {
             let n = rng.usize_in(1, 30);
             let mut tbl = table.clone();
